@@ -42,6 +42,9 @@ type Task struct {
 	state int
 	point string
 	guard func() bool
+	// parkAdv is the number of clock advances that had happened when the task parked: a task
+	// that has already waited through one advance is not starved through a second one
+	parkAdv int
 	// Panic holds the recovered panic value of a harness task, if any.
 	Panic interface{}
 	// PanicStack holds the stack at the time of the panic.
@@ -60,14 +63,14 @@ type Step struct {
 
 // Options configures a Sim.
 type Options struct {
-	Tape     []uint8 // explicit choices; exhausted => PRNG seeded with TapeSeed
-	TapeSeed uint64
-	Calm     int           // 0: uniform choice, 1: continue the last task with p=1/2, 2: p=7/8
-	MaxSteps int           // hard cap on scheduling steps (0 = 200000)
-	IdleStep time.Duration // longest single clock jump (0 = 10 min)
-	Stall    time.Duration // fake time without non-daemon progress that counts as deadlock (0 = 2h)
-	NoAdvanceWhileEnabled bool // never choose "advance time" while some task is enabled
-	KeepSchedule bool // record every step (for replay files)
+	Tape                  []uint8 // explicit choices; exhausted => PRNG seeded with TapeSeed
+	TapeSeed              uint64
+	Calm                  int           // 0: uniform choice, 1: continue the last task with p=1/2, 2: p=7/8
+	MaxSteps              int           // hard cap on scheduling steps (0 = 200000)
+	IdleStep              time.Duration // longest single clock jump (0 = 10 min)
+	Stall                 time.Duration // fake time without non-daemon progress that counts as deadlock (0 = 2h)
+	NoAdvanceWhileEnabled bool          // never choose "advance time" while some task is enabled
+	KeepSchedule          bool          // record every step (for replay files)
 }
 
 // ErrDeadlock is returned by Run when unfinished non-daemon tasks exist, none is enabled and
@@ -95,15 +98,16 @@ type Sim struct {
 	start     time.Time
 
 	// statistics
-	Steps       int
-	Switches    int // control passed to a different task although the last one was enabled
-	Advances    int // clock jumps chosen or forced
-	ForcedIdle  int
-	Schedule    []Step
-	PairCover   map[string]int // "pointA>pointB": control passed from a task parked at A to a task parked at B
-	PointCover  map[string]int
-	Log         []string
-	Heartbeat   *atomic.Uint64 // incremented every step; watched from outside the bubble
+	Steps        int
+	Switches     int // control passed to a different task although the last one was enabled
+	Advances     int // clock jumps chosen or forced
+	ForcedIdle   int
+	Schedule     []Step
+	PairCover    map[string]int // "pointA>pointB": control passed from a task parked at A to a task parked at B
+	PointCover   map[string]int
+	LastRelease  map[string]time.Time // yield point -> fake time a task parked there was last released
+	Log          []string
+	Heartbeat    *atomic.Uint64 // incremented every step; watched from outside the bubble
 	lastProgress time.Time
 }
 
@@ -119,15 +123,16 @@ func New(opt Options) *Sim {
 		opt.Stall = 2 * time.Hour
 	}
 	s := &Sim{
-		opt:        opt,
-		byGid:      map[uint64]*Task{},
-		nameCount:  map[string]int{},
-		kick:       make(chan struct{}, 1),
-		rng:        opt.TapeSeed*0x9e3779b97f4a7c15 + 0x1234567,
-		hash:       14695981039346656037,
-		PairCover:  map[string]int{},
-		PointCover: map[string]int{},
-		start:      time.Now(),
+		opt:         opt,
+		byGid:       map[uint64]*Task{},
+		nameCount:   map[string]int{},
+		kick:        make(chan struct{}, 1),
+		rng:         opt.TapeSeed*0x9e3779b97f4a7c15 + 0x1234567,
+		hash:        14695981039346656037,
+		PairCover:   map[string]int{},
+		PointCover:  map[string]int{},
+		LastRelease: map[string]time.Time{},
+		start:       time.Now(),
 	}
 	s.lastProgress = s.start
 	return s
@@ -212,6 +217,7 @@ func (s *Sim) park(t *Task, point string, guard func() bool) {
 	t.state = stParked
 	t.point = point
 	t.guard = guard
+	t.parkAdv = s.Advances
 	s.mu.Unlock()
 	select {
 	case s.kick <- struct{}{}:
@@ -408,7 +414,13 @@ func (s *Sim) Run() error {
 		v := s.next()
 		advance := len(enabled) == 0
 		if !advance && !s.opt.NoAdvanceWhileEnabled && v%16 == 15 {
+			// fairness: time may pass over a runnable task once (a slow task), not again and again
 			advance = true
+			for _, t := range enabled {
+				if t.parkAdv != s.Advances {
+					advance = false
+				}
+			}
 		}
 		if advance {
 			s.Steps++
@@ -425,7 +437,13 @@ func (s *Sim) Run() error {
 			case <-s.kick:
 			default:
 			}
-			timer := time.NewTimer(s.opt.IdleStep)
+			step := s.opt.IdleStep
+			if len(enabled) > 0 {
+				// voluntary advance over runnable tasks: a bounded quantum, so that a runnable
+				// task is never starved for longer than that
+				step = [4]time.Duration{5 * time.Millisecond, 60 * time.Millisecond, 250 * time.Millisecond, 1100 * time.Millisecond}[(v>>4)&3]
+			}
+			timer := time.NewTimer(step)
 			select {
 			case <-s.kick:
 				timer.Stop()
@@ -470,6 +488,7 @@ func (s *Sim) Run() error {
 			s.PairCover[key]++
 		}
 		s.PointCover[t.point]++
+		s.LastRelease[t.point] = now
 		s.Steps++
 		s.mix(t.Name)
 		s.mix(t.point)
